@@ -473,3 +473,6 @@ func Scratch(label string) string {
 
 // Char picks one byte of s.
 func (r *Rand) Char(s string) byte { return s[r.Intn(len(s))] }
+
+// Pick2 returns one of the given ints.
+func (r *Rand) Pick2(xs ...int) int { return xs[r.Intn(len(xs))] }
